@@ -504,7 +504,9 @@ def window_walks(names, truth, W):
                 yield history
 
 
-def check_adjacent(col, tmp, records, width, tier, only_history=None):
+def check_adjacent(col, tmp, records, width, tier, only_history=None, walks_only=False):
+    """tier: the density of the three-step enumeration ('quick': two spans per split point, single / multi-interval
+    requests alternating, middle fetch through the path that step 3 does not use; otherwise everything)"""
     data, rows = make_fasta(records, width)
     fa = os.path.join(tmp, "adj%d.fa" % col.evaluations)
     open(fa, "wb").write(data)
@@ -513,7 +515,7 @@ def check_adjacent(col, tmp, records, width, tier, only_history=None):
     truth = {h.split()[0]: s for h, s in records}
     if only_history is not None:
         histories = [only_history]
-    elif tier == "quick" and width == 4:
+    elif walks_only:
         histories = window_walks(names, truth, width)
     else:
         histories = itertools.chain(three_step_histories(names, truth, width, tier), window_walks(names, truth, width))
@@ -530,11 +532,12 @@ def check_adjacent(col, tmp, records, width, tier, only_history=None):
 def adjacent_cases(tier):
     names = ("chrA", "pB", "chrC")
     for W in (1, 2, 3, 4, 9):
-        layouts = [(2 * W + 1, W, W + 2)]
+        # (record lengths, density of the three-step enumeration, window walks only)
+        layouts = [((2 * W + 1, W, W + 2), tier, tier == "quick" and W == 4)]
         if tier != "quick":
-            layouts += [(W + 1, 3 * W)]
-        for Ls in layouts:
-            yield [(names[i], seq_of(L, i + 1)) for i, L in enumerate(Ls)], W
+            layouts += [((W + 1, 3 * W), "quick", False)]
+        for Ls, density, walks_only in layouts:
+            yield [(names[i], seq_of(L, i + 1)) for i, L in enumerate(Ls)], W, density, walks_only
 
 
 # ----------------------------------------------------------------------------------------------------------------------
@@ -791,7 +794,7 @@ def run(tier="quick", seed=0):
                   "supplied_fai_variants": ["final newline", "no final newline"], "index_writing_routes": list(ROUTES),
                   "written_index_records": "1..4, names with '_' / descriptions", "history_records": "2..4, L in {1,W-1,W,W+1,2W,2W+1}",
                   "history_fetch_orders": "all permutations + re-fetch of the first, same contig twice",
-                  "adjacent_history_files": "per W: records of length (2W+1, W, W+2)" + ("" if tier == "quick" else " and (W+1, 3W)"),
+                  "adjacent_history_files": "per W: records of length (2W+1, W, W+2)" + ("" if tier == "quick" else " and (W+1, 3W) at quick density"),
                   "adjacent_history_split_points": "all for L <= 9, else at/around the first two line breaks and the ends"
                                                    + (" (three-step histories: W in 1,2,3,9)" if tier == "quick" else ""),
                   "adjacent_history_middle_step": ["none", "getitem of each record", "plain / stringenc fetch of the same interval",
@@ -818,8 +821,8 @@ def run(tier="quick", seed=0):
             check_history(col, tmp, records, W)
             if col.out_of_time():
                 break
-        for records, W in adjacent_cases(tier):
-            check_adjacent(col, tmp, records, W, tier)
+        for records, W, density, walks_only in adjacent_cases(tier):
+            check_adjacent(col, tmp, records, W, density, walks_only=walks_only)
             if col.out_of_time():
                 break
         for klass, W, layout, relation in multi_chunk_layouts(tier):
